@@ -56,3 +56,9 @@ PyLogger = TAbs("PyLogger", fields=dict(name=TStr()),
 
 def install_shared(E):
     E.shared_types["PyLogger"] = PyLogger
+    try:
+        from . import runtime_lib
+
+        runtime_lib.install_runtime_types(E)
+    except ImportError:
+        pass
